@@ -386,6 +386,28 @@ func replayCase(cs Case) string {
 		return faultOne(append(doc, " null 12"...), cs.FailAt, cs.Keep)
 	case "marshalwrite-fault":
 		return failingMarshalWrite(cs.L, cs.Value, cs.FailAt, cs.Keep, cs.Path == "always")
+	case "reset":
+		var fb, sb bool
+		fmt.Sscan(cs.Path, &fb, &sb)
+		return resetOne(cs.L, cs.FailAt, fb, sb)
+	case "sequence":
+		var ks, vs []int
+		parts := strings.SplitN(cs.Path, "] [", 2)
+		if len(parts) == 2 {
+			for _, f := range strings.Fields(strings.Trim(parts[0], "[]")) {
+				var x int
+				fmt.Sscan(f, &x)
+				ks = append(ks, x)
+			}
+			for _, f := range strings.Fields(strings.Trim(parts[1], "[]")) {
+				var x int
+				fmt.Sscan(f, &x)
+				vs = append(vs, x)
+			}
+			if len(ks) == len(vs) && len(ks) > 0 {
+				return seqOne(ks, vs)
+			}
+		}
 	}
 	return ""
 }
@@ -514,5 +536,7 @@ func Run(r *evid.Run) {
 	})
 	r.Sample(Case{Part: "fault", L: 700, Value: 3, FailAt: 2, Keep: -2})
 	r.Bound("write faults: %d lengths x 6 shapes x failing Write call index 1..14 x short-write lengths {0,1,len/2,len-1,len (everything accepted yet an error returned)} on token-level Encoders and on MarshalWrite (failing once / from then on)", len(fl))
+	sequences(r)
+	resets(r)
 	_ = io.EOF
 }
